@@ -62,7 +62,7 @@ func (c cfgT) sub() []byte {
 
 func genCfg(t *rapid.T) cfgT {
 	c := cfgT{Prefix: rapid.Bool().Draw(t, "prefix"), Prune: rapid.IntRange(0, 3).Draw(t, "prune") == 0,
-		MemTree: rapid.IntRange(0, 2).Draw(t, "memTree") == 0, MemVal: rapid.Bool().Draw(t, "memVal"), LevelDB: rapid.IntRange(0, 3).Draw(t, "leveldb") > 0}
+		MemTree: rapid.IntRange(0, 3).Draw(t, "memTree") == 0, MemVal: rapid.Bool().Draw(t, "memVal"), LevelDB: rapid.IntRange(0, 3).Draw(t, "leveldb") > 0}
 	// the in-memory test backend fails a batch that deletes a missing key ("leveldb: not found"), which the prune
 	// bookkeeping of a fork does routinely and LevelDB accepts; backend differences are C06's subject, so pruning
 	// configurations run on LevelDB, as deployed nodes do
@@ -270,7 +270,10 @@ type opT struct {
 	Op     string      `json:"op"` // memset | set | commit | rollback | restart
 	Parent int         `json:"parent,omitempty"`
 	KV     [][2]string `json:"kv,omitempty"`
-	Target int         `json:"target,omitempty"` // commit/rollback: >=0 index into pending roots (oldest first); <0 see genOps
+	Target int         `json:"target,omitempty"` // commit/rollback: >=0 index into pending roots (newest first); <0 see genOps
+	// memset only: instead of KV, write the first Rewrite pairs of the parent's own content again, unchanged
+	// (a block whose writes leave the state as it was: the computed root is the parent's root, one height up)
+	Rewrite int `json:"rewrite,omitempty"`
 }
 
 var keySpace = []string{"a", "ab", "abc", "b", "ba", "c", "d", "e", "f", "g", "mavl-x", "mavl-y", "z", "\x00", "~"}
@@ -299,7 +302,7 @@ func genKV(t *rapid.T, min int) [][2]string {
 }
 
 func genOps(t *rapid.T, restart bool) []opT {
-	kinds := []string{"memset", "memset", "memset", "memset", "commit", "commit", "rollback", "rollback", "set", "repeat"}
+	kinds := []string{"memset", "memset", "memset", "memset", "commit", "commit", "rollback", "rollback", "set", "repeat", "rewrite"}
 	if restart {
 		kinds = append(kinds, "restart")
 	}
@@ -320,7 +323,13 @@ func genOps(t *rapid.T, restart bool) []opT {
 					f.KV = o.KV
 				}
 				ops = append(ops, f)
+				// ... and often settle the competition right away: one branch wins, the other is discarded
+				if rapid.IntRange(0, 2).Draw(t, "settle") > 0 {
+					ops = append(ops, opT{Op: "commit", Target: rapid.IntRange(0, 1).Draw(t, "winner")}, opT{Op: "rollback"})
+				}
 			}
+		case "rewrite":
+			ops = append(ops, opT{Op: "memset", Parent: rapid.IntRange(0, 12).Draw(t, "parent"), Rewrite: rapid.IntRange(1, 3).Draw(t, "rewrite")})
 		case "repeat": // the same update computed again later (same parent, same batch)
 			var prev []opT
 			for _, o := range ops {
@@ -349,6 +358,7 @@ type caseT struct {
 type outcome struct {
 	nt, cutShort                      bool
 	restarts, forks, identical, empty int
+	rewrites                          int
 }
 
 func runSequential(t lib.TB, test string, cs caseT) (res outcome) {
@@ -387,6 +397,18 @@ func runSequential(t lib.TB, test string, cs caseT) (res outcome) {
 		case "memset", "set":
 			parent := m.corder[o.Parent%len(m.corder)]
 			pv := m.committed[parent]
+			if o.Rewrite > 0 {
+				var ks []string
+				for k := range pv.content {
+					ks = append(ks, k)
+				}
+				sort.Strings(ks)
+				o.KV = nil
+				for i := 0; i < o.Rewrite && i < len(ks); i++ {
+					o.KV = append(o.KV, [2]string{ks[i], pv.content[ks[i]]})
+				}
+				res.rewrites++
+			}
 			for _, p := range o.KV {
 				m.universe[p[0]] = true
 			}
@@ -395,9 +417,9 @@ func runSequential(t lib.TB, test string, cs caseT) (res outcome) {
 			var root []byte
 			var err error
 			if o.Op == "set" {
-				root, err = f.st.Set(set, true)
+				root, err = f.st.Set(set, false)
 			} else {
-				root, err = f.st.MemSet(set, true)
+				root, err = f.st.MemSet(set, false)
 			}
 			if err != nil || len(root) == 0 {
 				fail("on committed parent %x replied root=%x err=%v", parent, root, err)
@@ -447,7 +469,7 @@ func runSequential(t lib.TB, test string, cs caseT) (res outcome) {
 			isPending := false
 			switch {
 			case o.Target >= 0 && len(m.porder) > 0:
-				target, isPending = m.porder[o.Target%len(m.porder)], true
+				target, isPending = m.porder[len(m.porder)-1-o.Target%len(m.porder)], true
 			case o.Target == -2:
 				target = m.corder[len(m.corder)-1]
 				_, isPending = m.pending[target]
@@ -538,7 +560,7 @@ func TestPropPendingNeverLeaks(t *testing.T) {
 			on   bool
 			name string
 		}{{cs.Cfg.Prefix || cs.Cfg.Prune, "cfg_prefix"}, {cs.Cfg.Prune, "cfg_prune"}, {cs.Cfg.MemTree, "cfg_memtree"}, {cs.Cfg.LevelDB, "cfg_leveldb"},
-			{res.restarts > 0, "restart"}, {res.forks > 0, "fork_same_parent"}, {res.identical > 0, "identical_pending_twice"}, {res.empty > 0, "empty_update"}, {res.nt, "nontrivial"}, {res.cutShort, "cut_short_at_known_finding"}} {
+			{res.restarts > 0, "restart"}, {res.forks > 0, "fork_same_parent"}, {res.identical > 0, "identical_pending_twice"}, {res.empty > 0, "empty_update"}, {res.rewrites > 0, "rewrite_unchanged_values"}, {res.nt, "nontrivial"}, {res.cutShort, "cut_short_at_known_finding"}} {
 			if cl.on {
 				lib.Class(cl.name)
 			}
